@@ -34,7 +34,7 @@ JudgeFen(e) ==
         THEN Chk("c14.canonical-rejected", e.outcome = "value")
              \cup (IF e.outcome = "value"
                    THEN LET d == Decode(e.s) IN
-                        Chk("c14.canonical-decoded-wrong", e.val.pos = d.pos /\ e.val.np = d.np /\ e.val.fm = d.fm)
+                        Chk("c14.canonical-decoded-wrong", e.val.pos = d.pos /\ e.val.np = ToString(d.np) /\ e.val.fm = ToString(d.fm))
                         \cup Chk("c14.canonical-not-reproduced", e.val.reenc = e.s)
                    ELSE {})
         ELSE {})
